@@ -21,7 +21,7 @@
 From Tx Require Import Lib.Base Gen.Generated Model.Router Spec.MatchSpec.
 From Tx Require Import Proofs.RouterProofs Proofs.RuleTextProofs.
 From Tx Require Import Spec.DaemonSpec Model.ClientMatch Proofs.ClientMatchProofs.
-From Tx Require Import Model.AsyncMatch Proofs.AsyncMatchProofs.
+From Tx Require Import Model.AsyncMatch Proofs.AsyncMatchProofs Proofs.AsyncServedProofs.
 From Coq Require Import Permutation.
 Local Open Scope N_scope.
 
@@ -247,6 +247,109 @@ Example C12_proxy_cancel_twice_nonvacuous :
       OASignal true [(1%nat, 2)] ] /\
   a_daemon (arun w_prule None w_cancel_twice) = [w_ptext].
 Proof. exact w_cancel_twice_ok. Qed.
+
+(* A signal emitted after an ASYNCHRONOUS history (`asignal_forwarded h m`,
+   `asignal_called h m`: what the `XSignal m` step of Model/AsyncMatch.v shows
+   in the state `arun h`; `a_subs` is RemoteDBusObject._signalRules, the ids
+   notifyOnSignal's Deferred has fired with and that have not been cancelled;
+   `pdel_ids (a_pending s)` the ids whose RemoveMatch is written and not yet
+   answered).
+
+   The statement "the user's callback is invoked exactly for the ids in
+   _signalRules (when the signal satisfies the proxy's rule and passes the
+   signature gate); a cancelled id is never invoked again, whatever replies
+   are pending" is FALSE, in the model and in the code: after
+   notifyOnSignal x2, both replies, cancelSignalNotification(0) - which
+   returns with _signalRules = {1} and a RemoveMatch in flight - a signal that
+   satisfies the rule calls the callbacks of ids 0 AND 1.  delMatch's ok()
+   closure is what takes the rule out of conn.match_rules and the router, and
+   it runs only when the RemoveMatch reply arrives.  (Replayed on the real
+   RemoteDBusObject through harness/c12.py AsyncRun and
+   tools/replay_c12_cancel_race.py: same trace.)
+   READING (DESIGN.md 11.3 (8a)): the property's "once a rule is removed" is
+   taken as "once its removal has completed" - conn.delMatch returns a
+   Deferred and the rule leaves conn.match_rules, the router and the daemon
+   when that Deferred fires; until then the rule is still registered
+   everywhere a signal is matched.  Under that reading the window below is
+   not a violation (C12_proxy_cancelled_then_silent is the statement that
+   holds); this witness refutes the STRONGER reading "silent from the moment
+   cancelSignalNotification returns" and is recorded as an observation, not a
+   finding. *)
+Theorem C12_proxy_silent_from_cancel_call_refuted :
+  Forall proxy_event w_cancel_pending /\ good_rule w_prule /\ registrable w_prule = true /\
+  a_subs (arun w_prule None w_cancel_pending) = [1%nat] /\
+  a_pending (arun w_prule None w_cancel_pending) = [PDel 0 w_ptext] /\
+  MatchSpec.matches w_prule w_tick = true /\ gate None w_tick = Some [] /\
+  asignal_called w_prule None w_cancel_pending w_tick = [(0%nat, 1); (1%nat, 2)] /\
+  ~ (forall i, In i (map fst (asignal_called w_prule None w_cancel_pending w_tick)) <->
+               In i (a_subs (arun w_prule None w_cancel_pending)) /\
+               MatchSpec.matches w_prule w_tick = true /\ gate None w_tick <> None).
+Proof. exact served_full_refuted_w. Qed.
+
+(* What does hold, for ALL histories of notifyOnSignal / cancelSignalNotification
+   (any id, repeated) / answers / signals and every message m delivered next:
+   - the reference daemon forwards m to this connection iff some rule text it
+     holds is satisfied by m, which is iff m satisfies the proxy's rule and at
+     least one id is subscribed or has its RemoveMatch still unanswered;
+   - no id is called twice, and the ids called are EXACTLY the subscribed ids
+     together with the ids whose RemoveMatch is unanswered, when m satisfies
+     the proxy's rule (Spec/MatchSpec.v `matches`) and the signature gate
+     passes - and no id at all otherwise.  In particular every subscribed id
+     is served exactly once, and a subscription whose AddMatch reply has not
+     arrived (it has no id yet, it is in neither set) is not called.
+   _partial: against the full-strength statement the silence of a cancelled
+   id BETWEEN cancelSignalNotification and the RemoveMatch reply is missing -
+   it does not hold (C12_proxy_silent_from_cancel_call_refuted); and the callback is
+   identified by its rule id only (that the tag called for id i is the one
+   given to the notifyOnSignal that produced i is checked by the
+   correspondence run, not proved). *)
+Theorem C12_proxy_signal_served_partial :
+  forall prule declared h m,
+    good_rule prule -> registrable prule = true -> Forall proxy_event h ->
+    let s := arun prule declared h in
+    (asignal_forwarded prule declared h m = true <->
+       exists t r, In t (a_daemon s) /\ rule_of_text t = Some r /\ MatchSpec.matches r m = true) /\
+    (asignal_forwarded prule declared h m = true <->
+       (exists i, In i (a_subs s) \/ In i (pdel_ids (a_pending s))) /\ MatchSpec.matches prule m = true) /\
+    NoDup (map fst (asignal_called prule declared h m)) /\
+    (forall i, In i (map fst (asignal_called prule declared h m)) <->
+               (In i (a_subs s) \/ In i (pdel_ids (a_pending s))) /\
+               MatchSpec.matches prule m = true /\ gate declared m <> None).
+Proof. exact proxy_signal_served_stmt. Qed.
+
+(* A subscribed id that is cancelled is never subscribed again, whatever
+   follows (ids are not reused), and from the moment its RemoveMatch has been
+   answered - no RemoveMatch for it in flight - no signal calls it any more. *)
+Theorem C12_proxy_cancelled_then_silent :
+  forall prule declared h1 i h2 m,
+    good_rule prule -> registrable prule = true ->
+    Forall proxy_event (h1 ++ XCancel i :: h2) -> In i (a_subs (arun prule declared h1)) ->
+    let s := arun prule declared (h1 ++ XCancel i :: h2) in
+    ~ In i (a_subs s) /\
+    (~ In i (pdel_ids (a_pending s)) ->
+     ~ In i (map fst (asignal_called prule declared (h1 ++ XCancel i :: h2) m))).
+Proof. exact cancelled_then_silent_stmt. Qed.
+
+(* non-vacuity: two subscriptions, the first cancelled; the signal arrives
+   while the RemoveMatch is pending (both callbacks run), the reply arrives,
+   the signal arrives again (only the second runs).  Id 0 was subscribed
+   before the cancel, so the hypotheses of C12_proxy_cancelled_then_silent
+   are met with h1 = the first four events.  With a declared signature 's'
+   the signal does not carry, the signal is forwarded and nobody is called. *)
+Example C12_proxy_cancel_race_nonvacuous :
+  Forall proxy_event w_cancel_race /\ good_rule w_prule /\ registrable w_prule = true /\
+  atrace w_prule None w_cancel_race =
+    [ OWrote [WAdd w_ptext] (Ok tt); OWrote [WAdd w_ptext] (Ok tt); OAnsAdd (Ok 0%nat); OAnsAdd (Ok 1%nat);
+      OWrote [WRemove w_ptext] (Ok tt);
+      OASignal true [(0%nat, 1); (1%nat, 2)]; OAnsDel (Ok tt); OASignal true [(1%nat, 2)] ] /\
+  In 0%nat (a_subs (arun w_prule None (firstn 4 w_cancel_race))) /\
+  a_subs (arun w_prule None w_cancel_pending) = [1%nat] /\
+  pdel_ids (a_pending (arun w_prule None w_cancel_pending)) = [0%nat] /\
+  a_subs (arun w_prule None w_cancel_race) = [1%nat] /\
+  a_pending (arun w_prule None w_cancel_race) = [] /\
+  asignal_forwarded w_prule (Some [115]) w_cancel_pending w_tick = true /\
+  asignal_called w_prule (Some [115]) w_cancel_pending w_tick = [].
+Proof. exact w_cancel_race_ok. Qed.
 
 (* The matcher of the pinned commit did not satisfy C12_match_iff: one
    witness per defect (D16 type ignored, D17 namespace sibling, D18 no body,
